@@ -3,6 +3,7 @@ import ast, os, time, warnings
 import numpy as np
 import vlib
 from vlib import cz, czl, tolq
+from props._loopir import loopir_tie, TRUSTED_LINE
 
 LEVEL_TEXT = ("Coq theorems (abstract field with conjugation, ordered where an order clause is stated; every N, P, Q, lag, NFFT) about the "
               "model of ma / arma_estimate / arma2psd and the six AR/MA/ARMA class pipelines: exactly P and Q coefficients; the exact "
@@ -531,6 +532,8 @@ def run(ctx):
     def lap(name):
         timing[name] = round(time.time() - t0[0], 1); t0[0] = time.time()
     ctx.check_theorems('Properties/C15.v')
+    # the IR program of ma, regenerated from arma.py with aryule / CORRELATION / LEVINSON embedded, vs Model.MaEst.ma_est: exact, zero tolerance
+    loopir_tie(ctx, ['ma'])
     check_pipelines(ctx)
     lap('theorems+pipelines')
 
